@@ -2602,7 +2602,7 @@ class ChannelManager:
         # Check that there isn't already a request pending
         if self.connection_parameters_update_response:
             raise InvalidStateError('request already pending')
-        self.connection_parameters_update_response = (
+        response = self.connection_parameters_update_response = (
             asyncio.get_running_loop().create_future()
         )
         self.send_control_frame(
@@ -2616,7 +2616,12 @@ class ChannelManager:
                 timeout=timeout,
             ),
         )
-        return await self.connection_parameters_update_response
+        try:
+            return await connection.cancel_on_disconnection(response)
+        finally:
+            # Don't stay in the way of the next request if this one was abandoned
+            if self.connection_parameters_update_response is response:
+                self.connection_parameters_update_response = None
 
     def on_l2cap_connection_parameter_update_response(
         self,
